@@ -277,6 +277,9 @@ class Check:
             if self.pid in ("C12", "C03"):
                 # loop functions of pyrepseq/distance.py re-translated into Lean list comprehensions (C12_source_*, C03_source_*)
                 changed += [load("gen_loops").main()]
+            if self.pid == "C17":
+                # powerlaw_sample and the closed forms of powerlaw_mle_alpha re-translated over the reals (C17_source_*)
+                changed += [load("gen_formulas").gen_real()]
             if self.pid in ("C02", "C06", "C16"):
                 # formulas of pyrepseq/stats.py re-translated into Lean definitions (Cxx_source_* prove they are the models)
                 changed += [load("gen_formulas").gen_group("pc" if self.pid != "C16" else "richness")]
